@@ -36,6 +36,21 @@ def load_variants(props):
             v = dict(v)
             v['property'] = pid
             out.append(v)
+    # independently seeded changes (see seeded/INDEX.md): every one a check catches is a permanent mutant
+    sd = os.path.join(VERIF, 'seeded')
+    for name in sorted(os.listdir(sd)) if os.path.isdir(sd) else []:
+        mp = os.path.join(sd, name, 'meta.json')
+        if not os.path.exists(mp):
+            continue
+        with open(mp) as f:
+            meta = json.load(f)
+        for pid, c in sorted((meta.get('caught_by') or {}).items()):
+            if props and pid not in props:
+                continue
+            if c.get('rc') != 1 or not c.get('rules'):
+                continue
+            out.append({'name': 'seeded change %s' % name, 'expect': c['rules'][0], 'property': pid, 'edits': [],
+                        'patch': os.path.join(sd, name, 'patch.diff')})
     return out
 
 
@@ -85,6 +100,11 @@ def run_one(v):
             if os.path.isfile(os.path.join('/repo', fn)) and not fn.startswith('.'):
                 shutil.copy2(os.path.join('/repo', fn), os.path.join(root, fn))
         err = apply_edits(root, v['edits'])
+        if not err and v.get('patch'):
+            with open(v['patch']) as pf:
+                r = subprocess.run(['patch', '-p1', '-s', '--no-backup-if-mismatch', '-d', root], stdin=pf, capture_output=True, text=True)
+            if r.returncode != 0:
+                err = 'patch does not apply: ' + (r.stdout + r.stderr)[-200:]
         if err:
             return v, 'BROKEN-VARIANT', err, ''
         if v.get('compile', True):
